@@ -126,9 +126,9 @@ func c06RunDataset(c *fw.Ctx, set []t6Cell, split int, only *c06Case) {
 
 func init() {
 	fw.Register(&fw.Prop{
-		ID:    "C06",
-		Level: "exploration",
-		Rule: "datasets: all sets of up to 2 (quick) / 3 (thorough) cells over 6 keys (x in {1,2} × y in {true,false,absent}) × 5 periods, canonical under renaming x, plus 4 richer sets; each × storage {memory, disk, split} × clock {last period end, +½, +1, +3 periods} × GROUP BY {none, x y, x, y, _} × period(k·res) for k in {1,2,3,5,8,16} (non-divisors of and larger than the window included) × fields {*, a, av, ratio, 'av, ca'}; oracle (anchoring-agnostic): per key the intervals (T-P, T] are disjoint, every point whose native period lies wholly in the window is covered by exactly one row, every row wholly inside the window equals the aggregate recomputed from the raw points of its interval (AVG/ratio recomputed), edge-straddling rows hold only points of their interval, no row without points, nothing older than one resolution before the window; P is read from the plan; non-trivial = coarser grouping with rows",
+		ID:          "C06",
+		Level:       "exploration",
+		Rule:        "datasets: all sets of up to 2 (quick) / 3 (thorough) cells over 6 keys (x in {1,2} × y in {true,false,absent}) × 5 periods, canonical under renaming x, plus 4 richer sets; each × storage {memory, disk, split} × clock {last period end, +½, +1, +3 periods} × GROUP BY {none, x y, x, y, _} × period(k·res) for k in {1,2,3,5,8,16} (non-divisors of and larger than the window included) × fields {*, a, av, ratio, 'av, ca'}; oracle (anchoring-agnostic): per key the intervals (T-P, T] are disjoint, every point whose native period lies wholly in the window is covered by exactly one row, every row wholly inside the window equals the aggregate recomputed from the raw points of its interval (AVG/ratio recomputed), edge-straddling rows hold only points of their interval, no row without points, nothing older than one resolution before the window; P is read from the plan; non-trivial = coarser grouping with rows",
 		Assumptions: []string{"values are distinct powers of two so that a sum identifies the contributing points", "a query the planner refuses (period not a multiple of the resolution) is counted separately"},
 		Shards:      func(tier string) int { return 16 },
 		Budget: func(tier string) time.Duration {
